@@ -582,6 +582,13 @@ def run(ctx) -> None:
     ctx.visit(lsf.fq)
     srch = [c for c in ast.walk(lsf.node) if isinstance(c, ast.Call) and isinstance(c.func, ast.Attribute) and c.func.attr in ("search", "finditer", "match") and unparse(c.func.value).endswith(".regexp")]
     ctx.floor("R7", "regexp search calls of the line search", len(srch), 1)
+    from checks.c03 import line_search_fold
+    folded7 = line_search_fold(ctx, lsf) if lsf.name == "_iter_for_pattern" else None
+    if folded7 is not None:
+        # decided by evaluating the search loop on abstract lines: `search` receives every line unchanged
+        ctx.check("R7", not folded7 and all(c.func.attr == "search" for c in srch), f"{lsf.name}: the expression is searched (re.search) in every unmodified line",
+                  f"parse.{lsf.name}: the pattern is not searched in the line as it is", "; ".join(folded7[:2]), loc=lsf.loc(), witness={"pattern": "Release: {version}  "})
+        srch = []
     line_vars = {unparse(l_.target.elts[1]) for l_ in walk_no_nested(lsf.node) if isinstance(l_, ast.For) and isinstance(l_.target, ast.Tuple) and len(l_.target.elts) == 2 and unparse(l_.iter).startswith("enumerate(")}
     for c in srch:
         a0 = shapes.inline(lsf, c.args[0], prog) if c.args else None
